@@ -250,6 +250,10 @@ def _run(ck, m):
                 continue
             for (ubi, ud) in L.closure_use_blocks(b, cbi, csi):
                 w[ubi] = w.get(ubi, 0) + x
+        # a send that sits on a loop is repeated: as many messages as the loop has turns (pages of a listing, …)
+        for bi in list(w):
+            if bi in b.reach_from([bi]):
+                w[bi] = 99
         return w
 
     def max_sends(b):
